@@ -9,6 +9,7 @@ zero and wrong hashes.
 from __future__ import annotations
 
 import ctypes
+import os
 import importlib
 import importlib.util
 import json
@@ -46,7 +47,7 @@ def load_sources():
     from pyrtma.message_base import MessageBase
     from pyrtma.message_data import MessageData
     mods = {"core": cd}
-    spec = importlib.util.spec_from_file_location("vf_test_defs", "/repo/tests/test_msg_defs/test_defs.py")
+    spec = importlib.util.spec_from_file_location("vf_test_defs", os.environ.get("VF_REPO", "/repo") + "/tests/test_msg_defs/test_defs.py")
     try:
         m = importlib.util.module_from_spec(spec)
         sys.modules["vf_test_defs"] = m
